@@ -10,7 +10,7 @@
        labels_to_num_steps(labels))                                         *)
 From Coq Require Import ZArith List Bool.
 From NS Require Import Base.Sx Gen.G09 Gen.G08 Model.OneHot Model.EncDec Model.Lookback
-  Model.KeyMelody Model.NotePerfEnc Model.PianorollEnc.
+  Model.KeyMelody Model.NotePerfEnc Model.PianorollEnc Model.EncInst.
 Import ListNotations.
 Local Open Scope Z_scope.
 
@@ -57,15 +57,6 @@ Definition xNpe (s : sx) : npevent :=
 Definition oNpe (e : npevent) : sx :=
   let '(a, b, c, d) := e in L [oPe a; oPe b; oPe c; oPe d].
 
-(* melody one-hot as the (n, enc, dec, default, steps) tuple the generic encoders take *)
-Definition mel_dec (mn : Z) (i : Z) : option Z := Some (mel_decode mn i).
-Definition one_step (_ : Z) : Z := 1.
-
-(* performance one-hot, events as (type, value) pairs *)
-Definition pe_eqb (a b : pevent) : bool := (fst a =? fst b) && (snd a =? snd b).
-Definition pe_enc (rs : list range) (e : pevent) : option Z := oh_encode rs 0 (fst e) (snd e).
-Definition pe_dec (rs : list range) (i : Z) : option pevent := oh_decode rs 0 i.
-
 Definition oNpCfg (r : np_result) : sx :=
   match r with
   | NpValueError => L [I 1]
@@ -79,19 +70,18 @@ Definition run (s : sx) : sx :=
   match xZ (a 0%nat) with
   | 1 => (* one-hot over melody one-hot: mn mx es ps ls *)
       let mn := xZ (a 1%nat) in let mx := xZ (a 2%nat) in
-      let ed := ohs Z (mel_num_classes mn mx) (mel_encode mn mx) (mel_dec mn) one_step in
+      let ed := ohs_mel mn mx in
       bundle ed I I sparse (ed_input_size ed) (I (mel_num_classes mn mx))
              (xZs (a 3%nat)) (xZs (a 4%nat)) (xZs (a 5%nat))
   | 2 => (* one-hot index over melody one-hot *)
       let mn := xZ (a 1%nat) in let mx := xZ (a 2%nat) in
-      let ed := ohi Z (mel_encode mn mx) (mel_dec mn) one_step in
+      let ed := ohi_mel mn mx in
       bundle ed I I sparse (ed_input_size ed) (I (mel_num_classes mn mx))
              (xZs (a 3%nat)) (xZs (a 4%nat)) (xZs (a 5%nat))
   | 3 => (* lookback over melody one-hot: mn mx dists bits es ps ls *)
       let mn := xZ (a 1%nat) in let mx := xZ (a 2%nat) in
       let ds := xZs (a 3%nat) in let bits := xZ (a 4%nat) in
-      let ed := lb Z Z.eqb (mel_num_classes mn mx) (mel_encode mn mx) (mel_dec mn) MELODY_NO_EVENT
-                   one_step ds bits in
+      let ed := lb_mel mn mx ds bits in
       bundle ed I I sparse (ed_input_size ed) (I (lb_num_classes (mel_num_classes mn mx) ds))
              (xZs (a 5%nat)) (xZs (a 6%nat)) (xZs (a 7%nat))
   | 4 => (* key melody: mn mx dists bits es ps ls *)
@@ -102,15 +92,14 @@ Definition run (s : sx) : sx :=
              (xZs (a 5%nat)) (xZs (a 6%nat)) (xZs (a 7%nat))
   | 5 => (* one-hot over performance one-hot: nb ms minp maxp es ps ls *)
       let rs := perf_ranges (xZ (a 1%nat)) (xZ (a 2%nat)) (xZ (a 3%nat)) (xZ (a 4%nat)) in
-      let ed := ohs pevent (oh_num_classes rs) (pe_enc rs) (pe_dec rs) perf_steps in
+      let ed := ohs_perf (xZ (a 1%nat)) (xZ (a 2%nat)) (xZ (a 3%nat)) (xZ (a 4%nat)) in
       bundle ed oPe I sparse (ed_input_size ed) (I (oh_num_classes rs))
              (map xPe (xL (a 5%nat))) (xZs (a 6%nat)) (xZs (a 7%nat))
   | 6 => (* lookback over performance one-hot: nb ms minp maxp dists bits es ps ls *)
       let ms := xZ (a 2%nat) in
       let rs := perf_ranges (xZ (a 1%nat)) ms (xZ (a 3%nat)) (xZ (a 4%nat)) in
       let ds := xZs (a 5%nat) in
-      let ed := lb pevent pe_eqb (oh_num_classes rs) (pe_enc rs) (pe_dec rs) (EV_TIME_SHIFT, ms)
-                   perf_steps ds (xZ (a 6%nat)) in
+      let ed := lb_perf (xZ (a 1%nat)) ms (xZ (a 3%nat)) (xZ (a 4%nat)) ds (xZ (a 6%nat)) in
       bundle ed oPe I sparse (ed_input_size ed) (I (lb_num_classes (oh_num_classes rs) ds))
              (map xPe (xL (a 7%nat))) (xZs (a 8%nat)) (xZs (a 9%nat))
   | 7 => (* modulo performance: nb ms es ps ls ; the input entries of the bundle are the LAYOUT
@@ -136,9 +125,8 @@ Definition run (s : sx) : sx :=
       let cmn := xZ (a 1%nat) in let cmx := xZ (a 2%nat) in
       let mn := xZ (a 3%nat) in let mx := xZ (a 4%nat) in
       let ds := xZs (a 5%nat) in let bits := xZ (a 6%nat) in
-      let ctl := ohs Z (mel_num_classes cmn cmx) (mel_encode cmn cmx) (mel_dec cmn) one_step in
-      let tgt := lb Z Z.eqb (mel_num_classes mn mx) (mel_encode mn mx) (mel_dec mn) MELODY_NO_EVENT
-                    one_step ds bits in
+      let ctl := ohs_mel cmn cmx in
+      let tgt := lb_mel mn mx ds bits in
       let cs := xZs (a 7%nat) in let ts := xZs (a 8%nat) in
       let ps := xZs (a 9%nat) in let ls := xZs (a 10%nat) in
       L [ I (cond_input_size ctl tgt); I (lb_num_classes (mel_num_classes mn mx) ds);
